@@ -7,10 +7,12 @@ import (
 	"go/ast"
 	"go/types"
 	"os"
+	"os/exec"
 	"path/filepath"
 	"sort"
 	"strconv"
 	"strings"
+	"sync"
 	"time"
 
 	"golang.org/x/tools/go/ssa"
@@ -116,23 +118,64 @@ func cmdCheck(args []string) int {
 	pid := *prop
 	var keys []string
 	for k, c := range S.Contracts {
-		if !c.Extern && !c.Trusted && hasProp(c.Props, pid) {
+		if !c.Extern && !c.Trusted && (hasProp(c.Props, pid) || hasProp(S.Universal, pid)) {
 			keys = append(keys, k)
 		}
 	}
 	sort.Strings(keys)
+	seenKey := map[string]bool{}
+	for _, k := range keys {
+		seenKey[k] = true
+	}
+	noSupport := os.Getenv("GOVC_NOSUPPORT") != ""
+	reliedAll := map[string]bool{}
 	var fails []failure
 	var vcs []*FuncVC
 	var outOfReach []string
+	// work list: the functions that carry the property, then (transitively) every function whose proved contract
+	// one of them relies on at a call site — those contribute ALL their obligations, whatever their labels, because
+	// the caller's proof assumed all their postconditions
+	direct := map[string]bool{}
 	for _, k := range keys {
+		direct[k] = true
+	}
+	supporting := 0
+	for wi := 0; wi < len(keys); wi++ {
+		k := keys[wi]
 		insts := P.Instances(k)
 		if len(insts) == 0 {
-			fails = append(fails, failure{Obligation: k + "/contract-target", Func: k, Reason: "contract stale: function " + k + " not found in the repository", Status: "missing"})
+			if direct[k] {
+				fails = append(fails, failure{Obligation: k + "/contract-target", Func: k, Reason: "contract stale: function " + k + " not found in the repository", Status: "missing"})
+			}
 			continue
 		}
+		con := S.Contracts[k]
+		if con == nil {
+			con = &Contract{Key: k}
+		}
+		if !direct[k] {
+			supporting++
+		}
 		for _, fn := range insts {
-			vc := NewFuncVC(P, S, fn, S.Contracts[k])
+			vc := NewFuncVC(P, S, fn, con)
 			vc.Encode()
+			if !noSupport {
+				var rk []string
+				for r := range vc.relied {
+					rk = append(rk, r)
+				}
+				sort.Strings(rk)
+				for _, r := range rk {
+					if seenKey[r] {
+						continue
+					}
+					if rc := S.Contracts[r]; rc != nil && (rc.Extern || rc.Trusted) {
+						continue
+					}
+					seenKey[r] = true
+					keys = append(keys, r)
+				}
+			}
 			if len(vc.errs) > 0 {
 				fails = append(fails, failure{Obligation: k + "/contract-resolve", Func: k, Reason: "contract stale or unresolvable: " + strings.Join(vc.errs, "; "), Status: "error"})
 			}
@@ -142,14 +185,33 @@ func cmdCheck(args []string) int {
 			// filter clauses labelled for other properties
 			var keep []*Obligation
 			for _, o := range vc.obls {
-				if !labelCounts(o.Label, pid) {
-					continue
-				}
 				keep = append(keep, o)
 			}
 			vc.obls = keep
 			vcs = append(vcs, vc)
+			for r := range vc.relied {
+				reliedAll[r] = true
+			}
 		}
+	}
+	// a function some caller in this check relies on contributes all its obligations; the others only those that
+	// are unlabelled or labelled for this property
+	for _, vc := range vcs {
+		var keep []*Obligation
+		for _, o := range vc.obls {
+			switch {
+			case labelCounts(o.Label, pid):
+				keep = append(keep, o)
+			case noSupport:
+			case strings.HasPrefix(o.Kind, "assert:"):
+				// a call-site assertion is assumed by what follows it in the same function
+				keep = append(keep, o)
+			case reliedAll[vc.key] && !o.LocalPost:
+				// callers assumed this function's postconditions (those with locals are never assumed)
+				keep = append(keep, o)
+			}
+		}
+		vc.obls = keep
 	}
 	// lemmas
 	lvc := lemmaVC(P, S, pid)
@@ -180,10 +242,14 @@ func cmdCheck(args []string) int {
 	solvers := []string{"z3-new", "z3", "cvc5"}
 	opts := RunOpts{TimeoutS: *timeout, Solvers: solvers, TmpDir: tmp, Jobs: *jobs, KeepDir: os.Getenv("GOVC_KEEPDIR")}
 	if *tier == "thorough" {
-		*noHints = true
+		// thorough: everything quick does, plus (a) the full (unsliced) query of every obligation that the quick
+		// tier discharges on its recorded hint slice, (b) vacuity guards re-run with a longer timeout instead of
+		// being taken from the record, (c) the must-fail corpus of this property replayed on scratch copies
 		if opts.TimeoutS < 60 {
 			opts.TimeoutS = 60
 		}
+		opts.Cross = 20
+		opts.Fresh = true
 	}
 	if !*noHints && os.Getenv("GOVC_NOHINTS") == "" {
 		opts.Hints = NewHintDB()
@@ -206,6 +272,8 @@ func cmdCheck(args []string) int {
 	var notes []string
 	covers := 0
 	nHinted := 0
+	fullConfirmed, fullUndecided := 0, 0
+	var fullSat []string
 	for _, vc := range vcs {
 		funcs = append(funcs, fmt.Sprintf("%s (%d obligations)", vc.key, len(vc.obls)))
 		for k := range vc.assumed {
@@ -233,6 +301,15 @@ func cmdCheck(args []string) int {
 				perBackend[o.Result.Solver]++
 				if o.Hinted {
 					nHinted++
+				}
+				switch o.FullStatus {
+				case "":
+				case "unsat":
+					fullConfirmed++
+				case "sat":
+					fullSat = append(fullSat, o.Name)
+				default:
+					fullUndecided++
 				}
 				if len(samples) < 6 {
 					samples = append(samples, map[string]string{"obligation": o.Name, "where": o.Where, "goal": o.Desc, "result": "unsat by " + o.Result.Solver})
@@ -300,6 +377,13 @@ func cmdCheck(args []string) int {
 		}
 		slowest = append(slowest, fmt.Sprintf("%.2fs %s", sl.s, sl.n))
 	}
+	var corpus []map[string]string
+	if *tier == "thorough" && violations == 0 && os.Getenv("GOVC_NOCORPUS") == "" && os.Getenv("GOVC_REPO") == "" {
+		corpus = runCorpus(pid)
+	}
+	for _, n := range fullSat {
+		fmt.Fprintln(os.Stderr, "govc: solver disagreement: the full query of", n, "is reported satisfiable although its hint slice was refuted")
+	}
 	wall := time.Since(start).Seconds()
 	// evidence
 	var tb []string
@@ -325,7 +409,12 @@ func cmdCheck(args []string) int {
 			"solver_time_s":            round2(solverTime),
 			"load_ssa_s":               round2(loadS),
 			"cover_queries":            covers,
+			"supporting_functions":     supporting,
 			"discharged_on_hint_slice": nHinted,
+			"full_query_confirmed":     fullConfirmed,
+			"full_query_undecided":     fullUndecided,
+			"full_query_disagreement":  fullSat,
+			"must_fail_corpus":         corpus,
 			"slowest_discharged":       slowest,
 			"out_of_reach":             outOfReach,
 			"samples":                  samples,
@@ -556,4 +645,70 @@ func labelCounts(label, pid string) bool {
 		}
 	}
 	return !any
+}
+
+// runCorpus replays the must-fail corpus of a property (seeded changes and mutants kept under /verif) against scratch
+// copies of the repository and reports, per case, whether the quick check raises a violation there. A miss is a
+// weakness of the machinery, not a violation of the property: it is reported, never turned into an exit status.
+func runCorpus(pid string) []map[string]string {
+	var patches []string
+	if ds, _ := filepath.Glob(filepath.Join(verifDir, "seeded", pid+"-*", "patch.diff")); ds != nil {
+		patches = append(patches, ds...)
+	}
+	for _, pat := range []string{"*.diff", "*.patch"} {
+		if ds, _ := filepath.Glob(filepath.Join(verifDir, "mutants", pid, pat)); ds != nil {
+			patches = append(patches, ds...)
+		}
+	}
+	sort.Strings(patches)
+	out := make([]map[string]string, len(patches))
+	sem := make(chan struct{}, 2)
+	var wg sync.WaitGroup
+	self, _ := os.Executable()
+	for i, pf := range patches {
+		wg.Add(1)
+		go func(i int, pf string) {
+			defer wg.Done()
+			sem <- struct{}{}
+			defer func() { <-sem }()
+			res := map[string]string{"case": strings.TrimPrefix(pf, verifDir+"/")}
+			out[i] = res
+			d, err := os.MkdirTemp("", "govc-corpus-")
+			if err != nil {
+				res["result"] = "error: " + err.Error()
+				return
+			}
+			defer os.RemoveAll(d)
+			if b, err := exec.Command("rsync", "-a", "--exclude", ".git", repoDir()+"/", d+"/repo/").CombinedOutput(); err != nil {
+				res["result"] = "error: copy: " + trunc(string(b), 200)
+				return
+			}
+			pc := exec.Command("patch", "-p1", "-s", "-i", pf)
+			pc.Dir = d + "/repo"
+			if b, err := pc.CombinedOutput(); err != nil {
+				res["result"] = "skipped: patch does not apply to the current tree: " + trunc(string(b), 120)
+				return
+			}
+			c := exec.Command(self, "check", "-p", pid, "-tier", "quick")
+			c.Env = append(os.Environ(), "GOVC_REPO="+d+"/repo", "GOVC_OUT="+d+"/out", "VERIF_TIER=quick")
+			b, _ := c.CombinedOutput()
+			switch {
+			case c.ProcessState != nil && c.ProcessState.ExitCode() == 1 && strings.Contains(string(b), "VIOLATION property="+pid):
+				res["result"] = "detected"
+				for _, ln := range strings.Split(string(b), "\n") {
+					if strings.HasPrefix(ln, "  failed: ") {
+						res["first_failed_obligation"] = strings.Fields(ln)[1]
+						break
+					}
+				}
+			case c.ProcessState != nil && c.ProcessState.ExitCode() == 0:
+				res["result"] = "MISSED"
+				fmt.Fprintln(os.Stderr, "govc: must-fail corpus case not detected:", pf)
+			default:
+				res["result"] = "error: " + trunc(string(b), 200)
+			}
+		}(i, pf)
+	}
+	wg.Wait()
+	return out
 }
